@@ -75,7 +75,7 @@ func runSurface(c *hlib.Ctx, n int) {
 				res := math.Abs(sh.resid(p))
 				c.Stat("surface.hits."+sh.kind, 1)
 				if !(res <= tol) {
-					c.PropFail("c07:"+tag+"hit-not-on-surface/"+sh.kind,
+					c.PropFail(surfaceSite(sh, r, tag),
 						fmt.Sprintf("t=%v point=%v residual=%v tol=%v %s", t, p, res, tol, descRay3(sh.name, r, class)))
 					continue
 				}
@@ -285,7 +285,7 @@ func runOnSurface(c *hlib.Ctx, n int) {
 			res := math.Abs(sh.resid(p))
 			c.Stat("onsurface.hits."+sh.kind, 1)
 			if !(res <= 1e-7*reach) {
-				c.PropFail("c07:hit-not-on-surface/"+sh.kind,
+				c.PropFail(surfaceSite(sh, r, ""),
 					fmt.Sprintf("t=%v point=%v residual=%v %s", t, p, res, descRay3(sh.name, r, "on-surface/second")))
 			}
 		}
